@@ -596,7 +596,7 @@ def make_canary(k, fid, head, contract, impl_header):
     out_params = []
     for p in params:
         q = p.strip()
-        if q in ("&mut self", "&self", "self", "mut self"):
+        if re.fullmatch(r"(&\s*('[a-z_]+\s+)?(mut\s+)?)?(mut\s+)?self", q):
             if ty is None:
                 return None
             out_params.append(f"s: {ty}")
